@@ -1226,7 +1226,7 @@ func (v *Dumper) ExprInclude(n *ast.ExprInclude) {
 	v.indent++
 
 	v.dumpPosition(n.Position)
-	v.dumpToken("IncludeOnceTkn", n.IncludeTkn)
+	v.dumpToken("IncludeTkn", n.IncludeTkn)
 	v.dumpVertex("Expr", n.Expr)
 
 	v.indent--
